@@ -355,9 +355,28 @@ Definition show_res (r : result) : string := match r with Found t => "F" ++ show
 Definition mkconf (ps : list (nat * nat)) (c T : nat) : bool := existsb (fun p => (Nat.eqb (fst p) c && Nat.eqb (snd p) T)%bool) ps.
 Definition A (n : string) (d c k : bool) (v : aval) : attr := {| a_name := s2l n; a_decl := d; a_cont := c; a_call := k; a_val := v |}.
 Definition O (c : nat) (n : option string) (l : list attr) : obj := {| o_cls := c; o_name := option_map s2l n; o_attrs := l |}.
-Definition show_case (ps : list (nat * nat)) (m : list obj) (rs : list nat) (qs : list (string * nat)) : string :=
+(* the object graph at the moment a probe reference is resolved: of the listed reference attributes
+   (object, key) only the first n values are resolved yet *)
+Definition cut_attr (i : nat) (cuts : list (nat * string * nat)) (a : attr) : attr :=
+  match find (fun c => (Nat.eqb (fst (fst c)) i && str_eqb (a_name a) (s2l (snd (fst c))))%bool) cuts with
+  | Some c => {| a_name := a_name a; a_decl := a_decl a; a_cont := a_cont a; a_call := a_call a;
+                 a_val := match a_val a with
+                          | VPrim => VPrim
+                          | VOne o => match snd c with 0%nat => VOne None | _ => VOne o end
+                          | VMany l => VMany (firstn (snd c) l)
+                          end |}
+  | None => a
+  end.
+Definition cut_model (cuts : list (nat * string * nat)) (m : list obj) : list obj :=
+  map (fun io => {| o_cls := o_cls (snd io); o_name := o_name (snd io);
+                    o_attrs := map (cut_attr (fst io) cuts) (o_attrs (snd io)) |}) (combine (seq 0 (List.length m)) m).
+Definition show_case (ps : list (nat * nat)) (m : list obj) (rs : list nat) (qs : list (string * nat))
+           (probes : list (list (nat * string * nat) * nat * string * nat)) : string :=
   show_bool (wf_model m) ++ show_bool (unique_b m) ++ "|" ++
-  sjoin "," (flat_map (fun r => map (fun q => show_res (fqn_resolve (mkconf ps) m r (s2l (fst q)) (snd q))) qs) rs).
+  sjoin "," (flat_map (fun r => map (fun q => show_res (fqn_resolve (mkconf ps) m r (s2l (fst q)) (snd q))) qs) rs)
+  ++ "|" ++
+  sjoin "," (map (fun p => let '(cuts, r, tx, T) := p in
+                           show_res (fqn_resolve (mkconf ps) (cut_model cuts m) r (s2l tx) T)) probes).
 Open Scope nat_scope."""
 
 
@@ -390,9 +409,28 @@ def coq_conf(conf):
     return "[" + "; ".join("(%d, %d)" % (CID[c], CID[T]) for c, T in sorted(conf)) + "]"
 
 
-def coq_case(dump, conf, referrers, names):
+def cuts_for(dump, probe):
+    """[(object, key, n)]: of that reference attribute only the first n values are resolved when the probe is."""
+    st = state_at(dump, probe)
+    cuts = []
+    for i, (o, o2) in enumerate(zip(dump, st)):
+        for a, a2 in zip(o["attrs"], o2["attrs"]):
+            if a[4] != a2[4]:
+                if a[4][0] == "o":
+                    cuts.append((i, a[0], 0))
+                else:
+                    n = len(a2[4][1])
+                    if a[4][1][:n] != a2[4][1]:
+                        raise RuntimeError("resolved references are not a textual prefix: %r %r" % (a, a2))
+                    cuts.append((i, a[0], n))
+    return cuts
+
+
+def coq_case(dump, conf, referrers, names, probes=()):
     qs = "; ".join("(%s, %d)" % (coq_s(t), CID[T]) for t, T in names)
-    return "show_case %s %s [%s] [%s]" % (coq_conf(conf), coq_tbl(dump), ";".join("%d" % r for r in referrers), qs)
+    ps = "; ".join("([%s], %d, %s, %d)" % ("; ".join("(%d, %s, %d)" % (i, coq_s(k), n) for i, k, n in cuts_for(dump, p)),
+                                            p["holder"], coq_s(p["probe"]), CID[p["T"]]) for p in probes)
+    return "show_case %s %s [%s] [%s] [%s]" % (coq_conf(conf), coq_tbl(dump), ";".join("%d" % r for r in referrers), qs, ps)
 
 
 def compress(exprs):
@@ -627,24 +665,25 @@ def run(chk):
     # the model on the same cases
     for c in live:
         c["queries"] = queries_of(c)
-    exprs = [coq_case(c["dump"], c["conf"], c["referrers"], c["names"]) for c in live]
-    pexprs, pidx = [], []
-    for ci, c in enumerate(live):
-        for pi, p in enumerate(c["probes"]):
-            pexprs.append(coq_case(state_at(c["dump"], p), c["conf"], [p["holder"]], [[p["probe"], p["T"]]]))
-            pidx.append((ci, pi))
-    allx, defs = compress(exprs + pexprs)
+    exprs = [coq_case(c["dump"], c["conf"], c["referrers"], c["names"], c["probes"]) for c in live]
+    allx, defs = compress(exprs)
     # interleave so that the shards are balanced
     order = sorted(range(len(allx)), key=lambda i: (i % core.NPROC, i))
     svals, errs = core.coq_eval("C10", IMPORTS, [allx[i] for i in order], shard=400, defs=defs)
     vals = [None] * len(allx)
     for i, v in zip(order, svals):
         vals[i] = v
+    pidx, pvals = [], []
+    for ci, c in enumerate(live):
+        pv = vals[ci].split("|")[2].split(",") if vals[ci] is not None and vals[ci].count("|") == 2 else []
+        for pi, p in enumerate(c["probes"]):
+            pidx.append((ci, pi))
+            pvals.append(pv[pi] if pi < len(pv) and len(pv) == len(c["probes"]) else None)
     if errs:
         disagreements.append({"case": "coq evaluation", "model": errs[:2]})
     ph["coq_eval"] = round(time.time() - t0, 1)
     n_sens = 0
-    for c, mv in zip(live, vals[:len(exprs)]):
+    for c, mv in zip(live, vals):
         dump, conf = c["dump"], c["conf"]
         uniq_all = all(unique_on(dump, [nm]) for nm in {o["name"] for o in dump if o["name"] is not None})
         chk.stat("trees grammar %s" % c["gid"])
@@ -654,7 +693,7 @@ def run(chk):
             chk.stat("foreign named values", c["foreign"])
         if mv is None:
             continue
-        flags, _, body = mv.partition("|")
+        flags, body = mv.split("|")[0], mv.split("|")[1]
         manswers = body.split(",") if body else []
         if flags != "T" + ("T" if uniq_all else "F"):
             disagreements.append({"case": {"grammar": c["gid"], "text": c["text"]}, "impl": "wf=T unique=%s" % uniq_all,
@@ -684,7 +723,7 @@ def run(chk):
         if c["queries"] and len(chk.cov["samples"]) < 3:
             k = next((j for j, a in enumerate(c["answers"]) if a.startswith("F") and "." in c["queries"][j][1]), 0)
             chk.sample({"grammar": c["gid"], "text": c["text"], "query": c["queries"][k], "impl": c["answers"][k]})
-    for (ci, pi), mv in zip(pidx, vals[len(exprs):]):
+    for (ci, pi), mv in zip(pidx, pvals):
         c = live[ci]
         p, o = c["probes"][pi], c["e2e_out"][pi]
         dump, conf = c["dump"], c["conf"]
@@ -699,7 +738,7 @@ def run(chk):
             ia = "U"
         else:
             ia = "E:%s %s at %s:%s" % (o["type"], o["msg"], o["line"], o["col"])
-        ma = mv.partition("|")[2] if mv is not None else None
+        ma = mv
         chk.count((c["gid"], p["text"]), nontrivial=True)
         chk.stat("e2e: " + ("resolved" if ia.startswith("F") else "unknown object error" if ia == "U" else "other"))
         case = {"grammar": c["gid"], "text": p["text"], "probe": p["probe"], "holder": p["holder"], "attr": p["attr"],
